@@ -18,7 +18,8 @@ RULE = ('A/D: every shipped listing x every result time: tables of the reader vs
         'positions come from a Hypothesis list of abstract (time, table, row, column) picks biased to first/last rows, or '
         'from a fill rule "every n-th token of the file"; every cell of every table at every time must equal the number '
         'written there (perturbed) or printed there (unperturbed). Non-trivial (B) = at least one token changed sign or '
-        'exponent width; distinct = distinct case JSON.')
+        'exponent width; distinct = distinct case JSON.'
+        ' Also: every chunk of result times reached by negative index, time=, step= and last() as well as by index.')
 ASSUMPTIONS = ['block names are 5 characters ending in a digit ((A3,I2) printing), the blank in the 4th column is repaired to 0',
                'a Fortran field is right-justified, so a token\'s end column identifies its table column',
                'TOUGH2-MP prints border rows once per processor: one table row per distinct printed index, '
@@ -212,6 +213,9 @@ def cases_AD(tier):
             chunks = _time_chunks(n, 3 if tier == 'quick' else 2)
             for ch in chunks:
                 yield {'o': 'A', 'file': rel, 'idx': ch}
+            # result times visited again after others were visited in between (each visit judged against the print)
+            if n >= 2: yield {'o': 'A', 'file': rel, 'idx': [0, 1, 0, n - 1, 0]}
+            if n >= 3: yield {'o': 'A', 'file': rel, 'idx': [1, 0, 2, 0, 1, n - 1, 1]}
             # the same result times reached another way than by their non-negative index
             for k, ch in enumerate(chunks):
                 via = 'negative' if ch[-1] == n - 1 else ['negative', 'time', 'step'][k % 3]
